@@ -18,7 +18,8 @@ RULE = ("(a) generated interfaces x 1 canonical + k random renderings of each (p
         "tier); non-trivial = every rendering pair x operation / type, every graph with an edge; distinct = distinct "
         "of those"
         " ; plus: types looked up through the document's own prefix (ns0/ns1/ns2 bound to other namespaces included), named versus anonymous restricted simple types"
-        ' ; a hand-written three-namespace interface in all 6 block orders x own namespace by prefix / default only; generated ns<N> prefixes under all block and type orders x sortNamespaces')
+        ' ; a hand-written three-namespace interface in all 6 block orders x own namespace by prefix / default only; generated ns<N> prefixes under all block and type orders x sortNamespaces'
+        " ; soap:body parts= in any order; an element's type named versus inline (dotted paths)")
 ASSUMPTIONS = ["anonymous inline types are used only where the abstract interface never needs the type's name "
                "(not in rpc/encoded interfaces, not for derived or base types, not for operation parameters)",
                "decoded objects are compared without their class names when a rendering inlines types "
